@@ -251,15 +251,27 @@ Proof.
     rewrite make_unit_vector_id by exact Hu. exact Hu.
 Qed.
 
-Theorem rotate_preserves_polar (dir rot : vec3 R) : unitv dir -> unitv rot -> rot_branch_ok rot ->
+(** since repair 176dbfb [Base.Vec3.rotate_raw] is the repaired copy: the polar
+    angle is preserved for every unit [rot] (this lemma stops compiling if Base is
+    switched back to the pinned text) *)
+Lemma base_rotate_new : forall m (d r : vec3 R), rotate_raw m d r = rotate_raw_new m d r.
+Proof. intros; reflexivity. Qed.
+
+Theorem rotate_preserves_polar (dir rot : vec3 R) : unitv dir -> unitv rot ->
   dot (rotate (min_acc (T:=R)) dir rot) rot = vz dir.
 Proof.
-  intros Hd Hr Hb. unfold rotate.
-  destruct base_rotate_is as [E|E]; rewrite E.
-  - pose proof (rotate_raw_sel_unit false dir rot Hd Hr) as Hu. cbn [rotate_raw_sel] in Hu.
-    rewrite make_unit_vector_id by exact Hu. apply (rotate_raw_sel_polar false); auto.
-  - pose proof (rotate_raw_sel_unit true dir rot Hd Hr) as Hu. cbn [rotate_raw_sel] in Hu.
-    rewrite make_unit_vector_id by exact Hu. apply (rotate_raw_sel_polar true); auto.
+  intros Hd Hr. unfold rotate. rewrite base_rotate_new.
+  pose proof (rotate_raw_sel_unit true dir rot Hd Hr) as Hu. cbn [rotate_raw_sel] in Hu.
+  rewrite make_unit_vector_id by exact Hu. apply (rotate_raw_sel_polar true); auto.
+Qed.
+
+(** the pinned code preserved it only under the branch hypothesis *)
+Theorem rotate_old_preserves_polar (dir rot : vec3 R) : unitv dir -> unitv rot -> rot_branch_ok rot ->
+  dot (rotate_old (min_acc (T:=R)) dir rot) rot = vz dir.
+Proof.
+  intros Hd Hr Hb. unfold rotate_old.
+  pose proof (rotate_raw_sel_unit false dir rot Hd Hr) as Hu. cbn [rotate_raw_sel] in Hu.
+  rewrite make_unit_vector_id by exact Hu. apply (rotate_raw_sel_polar false); auto.
 Qed.
 
 (** the repaired formula preserves the polar angle for every unit [rot] *)
@@ -326,12 +338,12 @@ Proof. reflexivity. Qed.
 
 Lemma exiting_direction_spec (c : R) (d : vec3 R) s v s' :
   exiting_direction c d s = Some (v, s') -> -1 <= c <= 1 -> unitv d ->
-  exists u, s = u :: s' /\ unitv v /\ (rot_branch_ok d -> dot v d = c).
+  exists u, s = u :: s' /\ unitv v /\ dot v d = c.
 Proof.
   intros E Hc Hd. destruct s as [|u s0]; [discriminate|]. rewrite exiting_direction_run in E.
   inversion E; subst. exists u. split; [reflexivity|].
   pose proof (from_spherical_unitv c ((twopi - 0) * u + 0) Hc) as Hf.
-  split; [apply rotate_unit; assumption|]. intros Hb. rewrite rotate_preserves_polar by assumption. reflexivity.
+  split; [apply rotate_unit; assumption|]. rewrite rotate_preserves_polar by assumption. reflexivity.
 Qed.
 
 (** |p_in d_in - p_out d_out|^2 for unit vectors *)
